@@ -28,6 +28,26 @@ func genC03(rng *Rng, thorough bool, emit func(*Scenario)) {
 				Calls:   []Call{{Kind: "ping"}, {Kind: "devid"}, {Kind: getKinds[rng.Intn(4)], Addr: a}, {Kind: "ping"}, {Kind: "devid"}, {Kind: "uint", Addr: a}, {Kind: "cmd", Cmd: 3}, {Kind: "cmd", Cmd: 8, Addr: a}}})
 		}
 	}
+	// whatever the device answers - the frame-error response ":4AAAAFD", other response types, async frames - a single
+	// attempt hands exactly one frame to the port
+	for _, ans := range [][]byte{[]byte(":4AAAAFD\n"), simFrame(4, []byte{0xAA, 0xAA}), simFrame(3, nil), simFrame(0xA, []byte{1, 2, 3, 4}), simFrame(0, nil), simFrame(0xF, []byte{9})} {
+		a := uint16(rng.U64())
+		var replies [][][]byte
+		for i := 0; i < 12; i++ {
+			replies = append(replies, one(ans))
+		}
+		emit(&Scenario{Tag: "one-frame-per-attempt", Replies: replies, MaxWritesPerCall: 1, ExactWrites: []int{1, 1, 1, 1, 1, 1},
+			Calls: []Call{{Kind: "ping"}, {Kind: "devid"}, {Kind: "cmd", Cmd: 7, Addr: a}, {Kind: "cmd", Cmd: 6}, {Kind: "cmd", Cmd: 8, Addr: a}, {Kind: "cmd", Cmd: 3}}})
+		emit(&Scenario{Tag: "one-frame-per-attempt", Replies: replies, MaxWritesPerCall: 8, ExactWrites: []int{8}, Calls: []Call{{Kind: "uint", Addr: a, Want: "err:other"}}})
+	}
+	emit(&Scenario{Tag: "ping", Calls: []Call{{Kind: "ping"}}, MaxWritesPerCall: 1})
+	emit(&Scenario{Tag: "devid", Calls: []Call{{Kind: "devid"}}, MaxWritesPerCall: 1})
+}
+
+// genC03x: ports outside the io.Writer contract. The driver hands the frame to the port once; what it returns when the port
+// reports a partial write without an error is not constrained by the property, what it hands to the port is: decided by the
+// oracles alone (suite c03x, no model lines).
+func genC03x(rng *Rng, thorough bool, emit func(*Scenario)) {
 	// a port that takes only part of the bytes of a Write (n < len(b), no error): still one frame handed over per attempt
 	for _, ws := range [][]int{{0}, {0, 1, 2, 3, 4, 5, 6, 7, 8, 9, 10, 11}, {1, 3}} {
 		a := uint16(rng.U64())
@@ -36,8 +56,6 @@ func genC03(rng *Rng, thorough bool, emit func(*Scenario)) {
 			Calls: []Call{{Kind: "uint", Addr: a}, {Kind: "ping"}, {Kind: "devid"}, {Kind: "raw", Addr: a}, {Kind: "cmd", Cmd: 8, Addr: a}}})
 		emit(&Scenario{Tag: "short-write", WS: ws, MaxWritesPerCall: 8, Calls: []Call{{Kind: "str", Addr: a, Want: "err:other"}}})
 	}
-	emit(&Scenario{Tag: "ping", Calls: []Call{{Kind: "ping"}}, MaxWritesPerCall: 1})
-	emit(&Scenario{Tag: "devid", Calls: []Call{{Kind: "devid"}}, MaxWritesPerCall: 1})
 }
 
 // ---------- C04: reaction sequences ----------
@@ -181,6 +199,36 @@ func genC04(rng *Rng, thorough bool, emit func(*Scenario)) {
 		emit(getScenario("long-noise", "raw", addr, [][][]byte{nil, nil, nil, nil, nil, nil, nil, append(longNoise(kib), good)}))
 		emit(getScenario("long-noise", "str", addr, [][][]byte{longNoise(kib), one(good)}))
 	}
+	// a talkative device: many asynchronous frames (4 ... 150) in front of the answer, in one attempt
+	for _, na := range []int{4, 5, 16, 17, 20, 150} {
+		addr := uint16(rng.U64())
+		good := simGet(addr, 0, []byte{0x96, 0x00})
+		var cs [][]byte
+		for i := 0; i < na; i++ {
+			cs = append(cs, simFrame(0xA, []byte{byte(addr), byte(addr >> 8), 0, byte(i)}))
+		}
+		sc := getScenario("many-async", "uint", addr, [][][]byte{append(append([][]byte(nil), cs...), good)})
+		sc.ExactWrites = []int{1}
+		emit(sc)
+		sc = getScenario("many-async", "str", addr, [][][]byte{nil, nil, nil, nil, nil, nil, nil, append(append([][]byte(nil), cs...), good)})
+		sc.ExactWrites = []int{8}
+		emit(sc)
+	}
+	// a port whose last Read of a call reports io.EOF together with its data (legal for an io.Reader); after an idle pause the
+	// next call must not stumble over that old end-of-data
+	for k := 0; k < 6; k++ {
+		addr := uint16(rng.U64())
+		good := simGet(addr, 0, []byte{byte(k), 0x01})
+		other := simGet(addr+1, 0, []byte{7})
+		replies := [][][]byte{one(good), one(good)}
+		calls := []Call{{Kind: "uint", Addr: addr}, {Kind: "uint", Addr: addr, Sleep: true}}
+		exact := []int{1, 1}
+		if k%2 == 1 { // second call: answers for another register on attempts 1-7, the good frame at attempt 8
+			replies = [][][]byte{one(good), one(other), one(other), one(other), one(other), one(other), one(other), one(other), one(good)}
+			exact = []int{1, 8}
+		}
+		emit(&Scenario{Tag: "eof-with-data-sleep", EOFData: 1, Replies: replies, Calls: calls, ExactWrites: exact, MaxWritesPerCall: 8})
+	}
 	// idle / non-idle histories on one driver instance: stale bytes (an outdated good response for the same
 	// register, or for another one) are left pending by call 1; call 2 comes either at once (non-idle: the
 	// stale frame IS consumed first, as the model says) or after 110 ms (idle: it must be flushed).
@@ -239,9 +287,19 @@ func genC05(rng *Rng, thorough bool, emit func(*Scenario)) {
 				g := byte([]int{1, 2, 4}[rng.Intn(3)])
 				sc := &Scenario{Tag: "flag-history-" + k, MaxWritesPerCall: 1,
 					Replies: [][][]byte{one(simGet(a, f, nil)), one(simGet(a, g, []byte{9})), one(simGet(a, 0, []byte{0x2A, 0})), one(simGet(a, f, nil))},
-					Calls: []Call{{Kind: k, Addr: a, Want: kinds[f]}, {Kind: getKinds[rng.Intn(4)], Addr: a, Want: kinds[g]}, {Kind: "uint", Addr: a, Want: "ok:42"}, {Kind: k, Addr: a, Want: kinds[f]}}}
+					Calls:   []Call{{Kind: k, Addr: a, Want: kinds[f]}, {Kind: getKinds[rng.Intn(4)], Addr: a, Want: kinds[g]}, {Kind: "uint", Addr: a, Want: "ok:42"}, {Kind: k, Addr: a, Want: kinds[f]}}}
 				emit(sc)
 			}
+		}
+		// asynchronous frames in front of the refusal: still exactly one command frame
+		for _, na := range []int{1, 3, 4, 6, 20} {
+			f := byte([]int{1, 2, 4}[rng.Intn(3)])
+			var cs [][]byte
+			for i := 0; i < na; i++ {
+				cs = append(cs, simFrame(0xA, []byte{byte(a), byte(a >> 8), 0, byte(i)}))
+			}
+			cs = append(cs, simGet(a, f, nil))
+			emit(&Scenario{Tag: "flag-behind-async", Replies: [][][]byte{cs, one(simGet(a, 0, []byte{1}))}, Calls: []Call{{Kind: getKinds[rng.Intn(4)], Addr: a, Want: kinds[f]}}, MaxWritesPerCall: 1})
 		}
 		// error frame behind retries: still exactly k frames
 		for _, f := range []byte{1, 2, 4} {
@@ -382,6 +440,11 @@ func genC06(rng *Rng, thorough bool, emit func(*Scenario)) {
 				}
 			}
 		}
+	}
+	// an access after an idle pause (more than 100 ms since the last command) on a device that has fallen silent
+	for _, ck := range callKinds[:7] {
+		emit(&Scenario{Tag: "pause-then-silent-" + ck.kind + "-sleep", MaxWritesPerCall: 8, Replies: [][][]byte{one(simFrame(5, []byte{0x16, 0x41}))},
+			Calls: []Call{{Kind: "ping"}, {Kind: ck.kind, Cmd: ck.cmd, Addr: addr, Sleep: true}, {Kind: ck.kind, Cmd: ck.cmd, Addr: addr, Sleep: true}}})
 	}
 	// unstructured: random byte streams biased towards frame characters
 	n := 1500
